@@ -25,7 +25,9 @@ def hs_normalise(sid, events, lying):
             out.append({"e": k, "keyok": bool(e.get("keyok")), "msgkeyok": bool(e.get("msgkeyok")), "saltok": bool(e.get("saltok", False))})
         elif k == "Timeout":
             out.append({"e": k, "waiting": e.get("waiting", "")})
-        elif k in ("End", "Retry"):
+        elif k == "Retry":
+            out.append({"e": k, "lying": bool(e.get("lying"))})
+        elif k == "End":
             out.append({"e": k})
         else:
             out.append({"e": "Other"})
@@ -52,6 +54,8 @@ def hs_run(ctx, scs, family):
         cls = "lie=%s.%s.%s" % (h["lie"]["Step"], h["lie"]["Field"], h["lie"]["How"]) if h.get("lie") else "corner=%s:lz=%s" % (h.get("corner"), h.get("lz"))
         if h.get("retry"):
             cls = "second-attempt-after:" + cls
+        if h.get("lie2"):
+            cls += ":then-lie=%s.%s.%s" % (h["lie2"]["Step"], h["lie2"]["Field"], h["lie2"]["How"])
         evs = by.get(v["sc"], [])
         ctx.disagreement("%s:%s" % (v["kind"], cls), "key exchange %s: %s" % (cls, v["kind"]),
                          {"scenario": s, "verdict": v, "events": [e for e in evs if e["e"] != "Gate"][:80]})
